@@ -24,6 +24,7 @@ type FuncSpec struct {
 	File      string
 	Requires  []Clause
 	Ensures   []Clause
+	Defines   []Clause // ghost-defining postconditions: assumed at call sites, not checked against the body (listed as assumptions)
 	Modifies  []Clause // each an lvalue expression; empty + !ModAll = modifies nothing
 	ModAll    bool     // no frame stated: callee may modify anything (default)
 	ModNone   bool
@@ -338,6 +339,16 @@ func (sp *Specs) parseFile(path string, extern bool) error {
 				curT = &TypeSpec{Name: rest, Guarded: map[string]string{}, Immutable: map[string]bool{}, Ghost: map[string]string{}, Props: props}
 				sp.Types[rest] = curT
 			}
+		case "defines":
+			if curF == nil {
+				return fail(fmt.Errorf("defines outside func block"))
+			}
+			c, err := mkClause(rest)
+			if err != nil {
+				return fail(err)
+			}
+			curF.Defines = append(curF.Defines, c)
+			sp.Assumes = append(sp.Assumes, curF.Name+" defines "+c.Text)
 		case "requires", "ensures", "invariant", "modifies":
 			if word == "modifies" && curF != nil {
 				r, _ := splitProps(rest)
@@ -426,9 +437,13 @@ func (sp *Specs) parseFile(path string, extern bool) error {
 			if j < 0 {
 				return fail(fmt.Errorf("call ordinal missing"))
 			}
-			k, err := strconv.Atoi(target[j+1:])
-			if err != nil {
-				return fail(err)
+			k := 0 // '#*': every call
+			if target[j+1:] != "*" {
+				var err error
+				k, err = strconv.Atoi(target[j+1:])
+				if err != nil {
+					return fail(err)
+				}
 			}
 			gs := &GhostSet{When: word, Callee: target[:j], Ord: k}
 			for _, as := range splitTop(rest[i+5:], ";") {
